@@ -101,7 +101,16 @@ def decode(s):
     t = s["t"]
     try:
         if t == "int":
-            return int(s["v"])
+            # (ints beyond the interpreter's decimal-digit limit are written in hex: int()/str() refuse them in base 10)
+            return int(s["hex"], 16) if "hex" in s else int(s["v"])
+        if t == "deep":
+            # a container nested s["n"] levels deep (beyond the recursion limit), s["w"] items wide at the top; built without recursion
+            mk = {"list": lambda x: [x], "tuple": lambda x: (x,), "dict": lambda x: {"k": x}}[s["c"]]
+            cur = decode(s.get("leaf", 1))
+            for _ in range(int(s["n"])):
+                cur = mk(cur)
+            top = [cur] + [decode(s.get("leaf", 1))] * (int(s.get("w", 1)) - 1)
+            return {"list": top, "tuple": tuple(top), "dict": {f"k{i}": e for i, e in enumerate(top)}}[s["c"]]
         if t == "float":
             return float(s["v"])
         if t == "decimal":
@@ -163,10 +172,17 @@ def decode(s):
     raise HarnessError(f"unknown ValueSpec tag {t!r}")
 
 
+def safe_repr(v, n=80):
+    try:
+        return repr(v)[:n]
+    except Exception as e:      # deep nesting (RecursionError), ints beyond the digit limit (ValueError), hostile objects
+        return f"<{type(v).__name__}: repr failed with {type(e).__name__}>"
+
+
 def encode(v, depth=0):
     """best-effort inverse, for samples / details (falls back to repr)"""
     if depth > 8:
-        return {"t": "repr", "v": repr(v)[:80]}
+        return {"t": "repr", "v": safe_repr(v)}
     if v is None or isinstance(v, bool):
         return v
     if isinstance(v, enum.Enum):
@@ -178,6 +194,8 @@ def encode(v, depth=0):
         if type(v) is c:
             return {"t": "sub", "b": b, "v": encode({"int": int, "str": str, "list": list, "dict": dict, "float": float}[b](v), depth + 1)}
     if type(v) is int:
+        if v.bit_length() > 10000:
+            return {"t": "int", "hex": hex(v)}
         return v if abs(v) < BIG else {"t": "int", "v": str(v)}
     if type(v) is str:
         return v
@@ -216,7 +234,7 @@ def encode(v, depth=0):
     if type(v) is PlainObj:
         return {"t": "obj"}
     try:
-        r = repr(v)
+        r = safe_repr(v, 10**6)
     except Exception as e:
         r = f"<repr failed {type(e).__name__}>"
     return {"t": "repr", "type": type(v).__name__, "v": r[:200]}
